@@ -65,8 +65,10 @@ func (s *SwapStore) Close() error {
 
 // Close the store. NOP opertation, needed to implement Store interface.
 func (s *SwapStore) Swap(new Store) error {
+	verifYield("swap.beforeLock")
 	s.mu.Lock()
 	defer s.mu.Unlock()
+	verifYield("swap.locked")
 	_, oldWritable := s.s.(WriteStore)
 	_, newWritable := new.(WriteStore)
 	if oldWritable && !newWritable {
